@@ -12,15 +12,15 @@ one() {
   W=$(mktemp -d /dev/shm/clsim-try-XXXXXX)
   git -C /repo archive HEAD | tar -x -C $W
   (cd $W && git init -q . 2>/dev/null && git apply $d/patch.diff) || { echo "$id $prop PATCH-DOES-NOT-APPLY" > $TMP/$id; rm -rf $W; return; }
-  out=$(cd /verif && VERIF_REPO=$W timeout 3000 /venv/bin/python run.py $prop --tier quick 2>&1)
+  out=$(cd /verif && VERIF_STOP_ON_FIRST=1 VERIF_REPO=$W timeout 3000 /venv/bin/python run.py $prop --tier quick 2>&1)
   rc=$?
   orc=$(echo "$out" | grep "oracle=" | head -1 | sed 's/ detail=.*//' | tr -s ' ')
   echo "$id $prop expect_exit=$expect exit=$rc $orc" > $TMP/$id
   rm -rf $W
 }
 export -f one; export TMP
-ls /verif/seeded | grep -v REGRESSION | xargs -P $P -I{} bash -c 'one {}'
-cat $TMP/* | sort > $OUT
+ls /verif/seeded | grep -v REGRESSION | grep "${2:-.}" | xargs -P $P -I{} bash -c 'one {}'
+cat $TMP/* /dev/shm/reg-keep/* 2>/dev/null | sort -u > $OUT
 rm -rf $TMP
 echo "ok=$(awk '{split($3,a,"=");split($4,b,"="); if (a[2]==b[2]) n++} END{print n+0}' $OUT) of $(wc -l < $OUT)" >> $OUT
 tail -1 $OUT
